@@ -122,7 +122,10 @@ func faultCorrupt(r *model.Rand, data []byte, class string) []byte {
 			pos = model.Pick(r, idx)
 		}
 	}
-	switch r.Intn(7) {
+	switch r.Intn(8) {
+	case 7:
+		j := model.Pick(r, junkRunesC09)
+		out = append(out[:pos], append([]byte(j), out[pos:]...)...)
 	case 0:
 		out[pos] ^= byte(1 << r.Intn(8))
 	case 1:
@@ -155,6 +158,8 @@ func faultCorrupt(r *model.Rand, data []byte, class string) []byte {
 	}
 	return out
 }
+
+var junkRunesC09 = []string{"\x00", "\x1a", "\x1b", "ś", "į", "ş", "Ļ", "Ľ", "\ufeff", "\u200b", "\ufffd"}
 
 var badUTF8 = [][]byte{{0xff}, {0xc0, 0xaf}, {0xed, 0xa0, 0x80}, {0x80}, {0xe2, 0x99}, {0xf4, 0x90, 0x80, 0x80}, {0xfe, 0xff}, {0x00}}
 
@@ -378,6 +383,11 @@ func (p *C09) genNonsense(r *model.Rand) (*nonsense, []string) {
 	if r.Chance(1, 2) {
 		pre = other + "[1] "
 	}
+	if r.Chance(1, 6) {
+		// a long valid piece before the nonsense: whatever is buffered or
+		// streamed before the failure is detected must not reach stdout
+		pre = strings.Repeat(other+"[1] "+head+"m[2]{txt=la la} ", 40+r.Intn(200))
+	}
 	post := ""
 	if r.Chance(1, 2) {
 		post = " " + head + "m[2]"
@@ -385,6 +395,9 @@ func (p *C09) genNonsense(r *model.Rand) (*nonsense, []string) {
 	yamlPre := ""
 	if r.Chance(1, 2) {
 		yamlPre = goodInst
+	}
+	if r.Chance(1, 6) {
+		yamlPre = strings.Repeat(goodInst, 40+r.Intn(200))
 	}
 	yamlPost := ""
 	if r.Chance(1, 2) {
